@@ -180,4 +180,6 @@ func VerifParsePipeExpr(expr string) (initial string, segs [][]string) {
 }
 
 // VerifExprEval evaluates an expression with the engine's expr-lang evaluator.
-func VerifExprEval(v *Vue, expr string, env map[string]any) (any, error) { return v.exprEval.Eval(expr, env) }
+func VerifExprEval(v *Vue, expr string, env map[string]any) (any, error) {
+	return v.exprEval.Eval(expr, env)
+}
